@@ -66,6 +66,9 @@ func Verif_c09_positions() {
 	if verifKnown("C09-zsh-nul-in-braces", verifParam("lang") == 4 && bytes.IndexByte(src, 0) >= 0 && bytes.IndexByte(src, '{') >= 0 && bytes.IndexByte(src, '}') >= 0) {
 		return
 	}
+	if verifKnown("C01-heredoc-continuation-before-delimiter", verifHdocCont(f)) {
+		return
+	}
 	var stack []Node
 	var lastStmtEnd []Pos
 	Walk(f, func(nd Node) bool {
@@ -88,6 +91,9 @@ func Verif_c09_positions() {
 				par := stack[len(stack)-1]
 				if _, isFile := par.(*File); !isFile && pos.IsValid() && end.IsValid() && par.Pos().IsValid() && par.End().IsValid() {
 					verifAssert(!par.Pos().After(pos), "child starts before its parent")
+					if end.After(par.End()) && verifKnown("C09-heredoc-body-after-parent-end", verifHasHdoc(nd)) {
+						return false
+					}
 					verifAssert(!end.After(par.End()), "child ends after its parent")
 				}
 			}
@@ -180,4 +186,16 @@ func Verif_c09_positions() {
 		return true
 	})
 	verifReach("end")
+}
+
+// verifHasHdoc: the subtree holds a redirection with a here-document body.
+func verifHasHdoc(nd Node) bool {
+	found := false
+	Walk(nd, func(n Node) bool {
+		if r, ok := n.(*Redirect); ok && r.Hdoc != nil {
+			found = true
+		}
+		return !found
+	})
+	return found
 }
